@@ -18,7 +18,8 @@ STRICT_TYPES = ["strict", "falsy", "strictdefault"]
 PARTIALS = {"p": "[{{ p }}{{ x }}]", "q": "{% if q %}Q{% endif %}{{ y.a }}"}
 
 # uses of a missing variable that StrictUndefined must reject: (class, template)
-MISSING = ["m", "d.m", "d['m']", "lst[9]", "d.a.b"]
+# kinds of missing path; the first is the reference kind (a plain missing root)
+MISSING = ["m", "d.m", "d['m']", "lst[9]", "d.a.b", "d[m]", "d[d.m]", "lst[m]", "d[m].x", "d.a[m]", "lst[-9]", "d[nokey]"]
 TARGETED = [
     ("output", "{{ «m» }}"), ("output", "{% echo «m» %}"), ("output", "{% assign v = «m» %}{{ v }}"),
     ("iterate", "{% for i in «m» %}x{% endfor %}"), ("iterate", "{% tablerow i in «m» %}x{% endtablerow %}"),
@@ -58,6 +59,15 @@ def evaluate(case) -> Verdict:
         od = oc.outcome_of(lambda: envd.from_string(src).render(**BASE))
         if od[0] == "liquid" and od[1] == "UndefinedError":
             v.fail(f"default-raises:{cls}", f"{src!r} with the default Undefined raised UndefinedError")
+        # however the path came to be missing, the default type yields the same undefined value: the outcome
+        # must be the one a plain missing root gives in the same position
+        ref_src = shape.replace("«m»", MISSING[0])
+        oref = oc.outcome_of(lambda: envd.from_string(ref_src).render(**BASE))
+        if oc.short(od)[:2] != oc.short(oref)[:2]:
+            v.fail(
+                f"default-depends-on-how-missing:{cls.split(':')[0]}",
+                f"default Undefined: {src!r} -> {oc.short(od)!r:.150} but {ref_src!r} -> {oc.short(oref)!r:.150}",
+            )
         v.nontrivial = True
         v.key = ["targeted", case["i"], case["m"]]
         v.labels.append("targeted:" + cls.split(":")[0])
@@ -137,7 +147,7 @@ def finish_kwargs(ctx: core.Ctx, tier: str) -> dict:
         "rule": (
             f"(a) {len(TARGETED)} targeted uses (output, iterate, compare, {sum(1 for c, _ in TARGETED if c.startswith('filter:'))} "
             f"filters, filter arguments) x {len(MISSING)} kinds of missing path: StrictUndefined must raise UndefinedError, "
-            "the default type must not. (b) random templates rendered with data from which ~30% of keys and "
+            "the default type must not, and must give the same outcome as for a plain missing root in that position. (b) random templates rendered with data from which ~30% of keys and "
             "sub-paths were deleted, under Undefined, StrictUndefined, FalsyStrictUndefined and "
             "StrictDefaultUndefined: a successful strict-type render must equal the default-type render, and the "
             "default type never raises UndefinedError. Non-trivial (b) = some strict type raised UndefinedError "
